@@ -6,7 +6,7 @@ from vlib import to_tangelo_gate, cyc_to_complex, frac_str
 from fractions import Fraction
 
 CLAIM = {
- "text": "Proof (Lean 4), partial: the documented operation of every gate name (Gate.toOp / Op.sem, arbitrary control lists, arbitrary positions, any register size) is the model; proved for it: semantics of a gate list is the left fold and composes under concatenation; every operation of the gate set (any control list, swaps, XX) whose qubits are distinct and inside an n-qubit register preserves the sum of |amplitude|^2 over the 2^n basis states, for every n and every state, over any commutative star ring with the documented constants (2x2 unitarity of every gate matrix + a pairing argument over the basis states), hence every circuit does, and for the executable amplitudes Q(zeta_16) the state prepared from |0...0> has norm 1 so exact frequencies sum to one; the amplitude-index -> bitstring conversion is injective below 2^n and lists qubit 0 first for the advertised order and its mirror for the other order; the laws assumed of the constants (Consts.Laws, Consts.StarLaws) are proved for the executable constants. The simulators themselves (cirq, sympy) are NOT verified: they are tied to the model by an exact-simulation correspondence check - every amplitude and every frequency of random circuits over the full gate set (multi-controls, edge angles, optional rational initial statevector) is compared with the model's exact result in Q(zeta_16); sampled mode is checked for support, totals and key order only.",
+ "text": "Proof (Lean 4), partial: the documented operation of every gate name (Gate.toOp / Op.sem, arbitrary control lists, arbitrary positions, any register size) is the model; proved for it: semantics of a gate list is the left fold and composes under concatenation; every operation of the gate set (any control list, swaps, XX) whose qubits are distinct and inside an n-qubit register preserves the sum of |amplitude|^2 over the 2^n basis states, for every n and every state, over any commutative star ring with the documented constants (2x2 unitarity of every gate matrix + a pairing argument over the basis states), hence every circuit does, and for the executable amplitudes Q(zeta_16) the state prepared from |0...0> has norm 1 so exact frequencies sum to one; the amplitude-index -> bitstring conversion is injective below 2^n and lists qubit 0 first for the advertised order and its mirror for the other order; the laws assumed of the constants (Consts.Laws, Consts.StarLaws) are proved for the executable constants. The simulators themselves (cirq, sympy) are NOT verified: they are tied to the model by an exact-simulation correspondence check - every amplitude and every frequency of random circuits over the full gate set (multi-controls, edge angles, optional rational initial statevector) is compared with the model's exact result in Q(zeta_16); sampled mode is checked for support, totals and key order only (cirq with gates; both backends from a given statevector including the no-gate shortcut).",
  "note": "Trusted: Lean kernel + propext/Classical.choice/Quot.sound, cirq and sympy simulators (compared, not verified), numpy; float64 rounding (tolerance 1e-8 on amplitudes); scipy sampler (only support/total checked). Frequencies within 1e-13 of the 1e-10 threshold are discarded.",
  "technique": "Lean 4 theorems on the gate-semantics model (fold/composition, isometry, index-bitstring bijection) + exact differential simulation against cirq and sympy"}
 
@@ -140,6 +140,39 @@ def sampled_case(ctx, specs, n):
     return True
 
 
+def sampled_init_case(ctx, backend_name, n, specs):
+    """finite shots starting from a given statevector (incl. the no-gate shortcut), both backends: the sampled
+    bitstrings must lie in the support of the exact distribution, qubit 0 first"""
+    from tangelo.linq import Circuit, get_backend
+    rng = ctx.rng
+    dim = 2 ** n
+    psi = np.zeros(dim, dtype=complex)
+    for x in rng.sample(range(dim), rng.randint(1, max(1, dim // 2))):
+        psi[x] = complex(rng.randint(1, 4), rng.randint(-2, 2))
+    psi = psi / np.linalg.norm(psi)
+    shots = rng.choice([1, 23, 200])
+    b = get_backend(backend_name, n_shots=shots)
+    init = _from_model_order(psi, n, b.statevector_order)
+    c = Circuit([to_tangelo_gate(g) for g in specs], n_qubits=n)
+    np.random.seed(rng.randint(0, 2 ** 31))
+    case = {"backend": backend_name, "gates": specs, "width": n, "n_shots": shots, "init_model_order": [[z.real, z.imag] for z in psi]}
+    ctx.case(case, nontrivial=True, sample=False)
+    ctx.count(f"sampled_init:{backend_name}:{'nogate' if not specs else 'gates'}")
+    try:
+        freqs, _ = b.simulate(c, initial_statevector=init)
+    except Exception as e:
+        ctx.count("sampled_init:rejected:" + type(e).__name__)
+        return True
+    U = vlib.np_circuit_unitary(specs, n) if specs else np.eye(dim)
+    out = U @ psi
+    support = {"".join(str((x >> q) & 1) for q in range(n)) for x in range(dim) if abs(out[x]) ** 2 > 1e-12}
+    if abs(sum(freqs.values()) - 1) > 1e-9 or not set(freqs) <= support:
+        ctx.violation(f"{backend_name}, n_shots={shots}, initial statevector{' and no gate' if not specs else ''}: sampled outcomes {sorted(freqs)} "
+                      f"are not in the support {sorted(support)} of the exact distribution (qubit 0 first)", case)
+        return False
+    return True
+
+
 def run(ctx):
     rng = ctx.rng
     n_cirq, n_sympy = ctx.n(260, 8000), ctx.n(40, 600)
@@ -169,6 +202,15 @@ def run(ctx):
         w = rng.randint(1, 3)
         for b in ("cirq", "sympy"):
             one_case(ctx, b, [], w, w, rand_init(rng, w))
+    # finite shots from a given statevector: no-gate shortcut on both backends, and with gates on cirq
+    for i in range(ctx.n(12, 120)):
+        w = rng.randint(2, 3)
+        for b in ("cirq", "sympy"):
+            if not sampled_init_case(ctx, b, w, []):
+                return
+        specs = vlib.rand_gate_list(rng, w, rng.randint(1, 4), ["X", "CNOT", "SWAP", "Z", "S"], corr=0.1)
+        if not sampled_init_case(ctx, "cirq", w, specs):
+            return
 
 
 def replay(ctx, obj):
